@@ -459,10 +459,12 @@ def main(argv=None):
         "violating_cases": tot["nviol_cases"],
         "unexplained_buckets": {b: i["count"] for b, i in sorted(tot["viol"].items())},
         "shards": len(jobs),
-        "exhaustive": bool(n_enum and getattr(mod, "EXHAUSTIVE_NOTE", None)),
+        "exhaustive": bool(n_enum and getattr(mod, "EXHAUSTIVE_NOTE", None) and getattr(mod, "EXHAUSTIVE", True)),
     }
     if n_enum:
-        cov["exhaustive_subspace"] = getattr(mod, "EXHAUSTIVE_NOTE", "")
+        # enumerate_cases is either an exhaustive sub-domain or (EXHAUSTIVE = False) a fixed list of extra cases
+        key = "exhaustive_subspace" if getattr(mod, "EXHAUSTIVE", True) else "fixed_cases"
+        cov[key] = getattr(mod, "EXHAUSTIVE_NOTE", "")
         cov["enumerated"] = n_enum
     if fuzz_note is not None:
         cov["coverage_guided"] = fuzz_note
